@@ -453,6 +453,21 @@ pub fn run(ctx: &mut Ctx) {
             ctx.count("same_text_other_factor");
         }
     }
+    // hand-written canonical recipes with what the generator does not write: recipe references with folders, runs of
+    // blanks, trailing comments, servings together with fractional factors
+    if ctx.shard == 0 {
+        for text in [
+            "Make the @./sauces/Hollandaise{150%g} first.\n", "Use @../basics/stock/chicken{1%l} and @./Bread{} and @./a/b/c d{2}.\n",
+            "Add the @flour{50%g} -- equal weights\nand stir.\n\nAdd @milk{500%ml}\n    little by little.  Then  wait.\n",
+            "---\nservings: 3\n---\nWhisk @flour{240%g} with @milk{300%ml} and @eggs{3}.\n", ">> servings: 4\nMix @a{100%g} and @b{1}.\n", "---\nyield: 7\n---\n@x{10%g}\n",
+            "Fry the @onions{2} in the #pan{} -- medium heat\n\nSeason with @salt{}   \n",
+        ] {
+            for f in [1.0, 0.5, 1.5, 2.0, 1.0 / 3.0, 1.1] {
+                mirror(ctx, &Case::new("mirror", text, 0, "empty").with(json!({"factor": f})), f);
+                ctx.count("handwritten_mirrors");
+            }
+        }
+    }
     // "every input the canonical parser accepts": short strings over the token alphabet (exhaustive), random and
     // mutated ones — escapes at line ends, CR/CRLF soup, comments, odd blocks; only canonically valid ones are mirrored
     {
